@@ -55,6 +55,7 @@ structure CStream where
   pend : Pend := .openCall       -- conn.pending[seq]
   inStreams : Bool := true       -- conn.streams[seq]
   opened : Bool := false         -- NewStream has returned the stream to the application
+  failed : Bool := false         -- NewStream has returned an error instead (the connection ended first)
   closeCalled : Bool := false    -- Close() was called
   closeDone : Bool := false      -- Close() returned
   e : End := {}
@@ -92,6 +93,8 @@ structure State where
   sStreamQ : List (Nat × Nat) := []
   sEnded : Bool := false          -- the server reader has seen the end of the connection
   sTornDown : Bool := false       -- ServeCodec's teardown has run
+  pushPlan : List Nat := []       -- driver only: i-th stream opened: messages its handler pushes the moment it starts
+  pushedUpTo : Nat := 0           -- driver only: server streams whose initial pushes have been performed
 deriving Repr
 
 def init (cfg : Cfg) : State := { cfg := cfg }
@@ -106,7 +109,7 @@ def End.trigger (e : End) (v : Nat) : End :=
 
 /-- `stop()`: set the flag and wake the parked reader, who returns ErrStreamShutdown. -/
 def End.stop (e : End) : End :=
-  if e.waiting then { e with closed := true, waiting := false, readErrs := e.readErrs + 1 }
+  if e.waiting && Gen.streamStopSetsFlagAndBroadcasts then { e with closed := true, waiting := false, readErrs := e.readErrs + 1 }
   else { e with closed := true }
 
 /-- `ReadMessage`: a stopped stream refuses; otherwise the oldest event, or park. -/
@@ -154,7 +157,7 @@ def cProcess (s : State) (f : Frame) : State :=
       match c.phase with
       | .opening =>
         -- the first frame under an opening call is its acknowledgement, whatever it carries
-        if Gen.readerFlipsPhase then setC s f.seq fun c => { c with phase := .streaming, opened := true }
+        if Gen.streamReaderFlipsPhase then setC s f.seq fun c => { c with phase := .streaming, opened := true }
         else setC s f.seq fun c => { c with opened := true }
       | .streaming =>
         if s.cfg.cDirect then cTrigger s f.seq f.kind.value
@@ -163,17 +166,21 @@ def cProcess (s : State) (f : Frame) : State :=
     -- a unary response
     { s with ucalls := s.ucalls.map fun u => if u.1 == f.seq then (u.1, true) else u }
 
+/-- what the reader's final sweep does to one stream: whatever is pending under its sequence
+    number is failed (an open still waiting for its acknowledgement makes NewStream return an
+    error; a close call returns), and a registered stream is stopped -/
+def sweepC (c : CStream) : CStream :=
+  let failedNow := c.pend == Pend.openCall && !c.opened
+  let closedNow := c.pend == Pend.closeCall
+  let c1 : CStream := if c.pend != Pend.none then { c with pend := Pend.none, failed := c.failed || failedNow, closeDone := c.closeDone || closedNow } else c
+  if c1.inStreams then { c1 with inStreams := false, e := if Gen.streamClientTeardownStopsStreams then c1.e.stop else c1.e } else c1
+
 /-- the reader's teardown after the end of the stream of frames -/
 def cTeardown (s : State) : State :=
   let s := s.cDecodeQ.foldl cProcess { s with cDecodeQ := [] }   -- closeQueue(pipeline)
-  let s := { s with cShutdown := true,
-                    ucalls := s.ucalls.map fun u => (u.1, true),
-                    cs := s.cs.map fun c =>
-                      let c := if c.pend != .none then { c with pend := .none, opened := true,
-                                                          closeDone := c.closeDone || c.pend == .closeCall } else c
-                      if c.inStreams then { c with inStreams := false, e := c.e.stop } else c }
+  let s := { s with cShutdown := true, ucalls := s.ucalls.map (fun (u : Nat × Bool) => (u.1, true)), cs := s.cs.map sweepC }
   -- readStream.Close(): queued stream tasks still run
-  s.cStreamQ.foldl (fun s t => cTrigger s t.1 t.2) { s with cStreamQ := [] }
+  s.cStreamQ.foldl (fun (s : State) (t : Nat × Nat) => cTrigger s t.1 t.2) { s with cStreamQ := [] }
 
 /-! ### server -/
 
@@ -182,11 +189,11 @@ def sProcess (s : State) (f : Frame) : State :=
   match f.kind with
   | .open =>
     let s := if (getS s f.seq).isNone then { s with ss := s.ss ++ [{ seq := f.seq }] } else s
-    if Gen.ackBeforeHandler then
+    if Gen.streamAckBeforeHandler then
       setS (sendS s { seq := f.seq, kind := .ack }) f.seq fun t => { t with acked := true, started := true }
     else setS s f.seq fun t => { t with started := true }       -- the acknowledgement follows (`sAck`)
   | .close =>
-    let s := setS s f.seq fun t => if t.inTable then { t with inTable := false, e := t.e.stop } else t
+    let s := setS s f.seq fun t => if t.inTable then { t with inTable := false, e := if Gen.streamCloseRequestClosesServerStream then t.e.stop else t.e } else t
     sendS s { seq := f.seq, kind := .ack }
   | .msg m =>
     match getS s f.seq with
@@ -202,7 +209,7 @@ def sTeardown (s : State) : State :=
   let s := s.sDecodeQ.foldl sProcess { s with sDecodeQ := [] }   -- closeQueue(pipeline)
   let s := s.sStreamQ.foldl (fun s t => setS s t.1 fun x => { x with e := x.e.trigger t.2 }) { s with sStreamQ := [] }  -- wg.Wait
   { s with sTornDown := true,
-           ss := s.ss.map fun t => if t.inTable then { t with e := t.e.stop } else t }
+           ss := s.ss.map fun t => if t.inTable && Gen.streamServerTeardownClosesStreams then { t with e := t.e.stop } else t }
 
 /-! ### events -/
 
@@ -230,7 +237,7 @@ inductive Ev
   | sRead (q : Nat)
   | sExit (q : Nat)
   -- the network
-  | cutLink
+  | cutLink (kc ks : Nat)       -- the connection is lost: only the first kc / ks frames in flight still arrive
 deriving DecidableEq, Repr
 
 def step (s : State) : Ev → Option State
@@ -239,7 +246,7 @@ def step (s : State) : Ev → Option State
     let q := s.nextSeq
     some (sendC { s with nextSeq := q + 1, cs := s.cs ++ [{ seq := q }] } { seq := q, kind := .open })
   | .cOpenedLate q =>
-    if Gen.readerFlipsPhase then none else
+    if Gen.streamReaderFlipsPhase then none else
     match getC s q with
     | some c => if c.opened && c.phase == .opening then some (setC s q fun c => { c with phase := .streaming }) else none
     | none => none
@@ -259,7 +266,7 @@ def step (s : State) : Ev → Option State
     match getC s q with
     | some c =>
       if !c.opened || c.closeCalled then none else
-      let s := setC s q fun c => { c with closeCalled := true, e := c.e.stop }
+      let s := setC s q fun c => { c with closeCalled := true, e := if Gen.streamCloseStopsBeforeHandshake then c.e.stop else c.e }
       if s.cShutdown then some (setC s q fun c => { c with closeDone := true })     -- send refuses: ErrShutdown
       else some (sendC (setC s q fun c => { c with pend := .closeCall }) { seq := q, kind := .close })
     | none => none
@@ -317,7 +324,7 @@ def step (s : State) : Ev → Option State
     match getS s q with
     | some t => if !t.started || t.exited || t.e.waiting then none else some (setS s q fun t => { t with exited := true })
     | none => none
-  | .cutLink => if s.cut then none else some { s with cut := true }
+  | .cutLink kc ks => if s.cut then none else some { s with cut := true, c2s := s.c2s.take kc, s2c := s.s2c.take ks }
 
 inductive Accepts : State → List Ev → State → Prop
   | nil (s : State) : Accepts s [] s
